@@ -76,7 +76,27 @@ def build(name):
     return RG.CALLS[name]()
 
 
+def _fresh_fp(name):
+    """fingerprint of one call made as the FIRST library call of a process (forked from the harness before it called
+    anything): the reference for 'results do not depend on earlier calls'"""
+    try:
+        f, a, k = build(name)
+        r_ = RG.quiet(f, *a, **k)
+        fill = {kk: {x: y for x, y in vv.items() if x != 't'} for kk, vv in k.items() if kk in RG.FILL_KEYS and isinstance(vv, dict)}
+        return name, fp((r_, fill))
+    except Exception as ex:
+        return name, 'raised %s: %s' % (type(ex).__name__, str(ex)[:100])
+
+
 def run(ctx):
+    # --- before this process calls anything: every variant once in its own forked child (fresh module state)
+    import multiprocessing as mp
+    quick0 = ctx.tier == 'quick'
+    slow0 = {'cross', 'cross_vld', 'cross_act', 'als', 'als_w', 'als_vld', 'als_adapt', 'als_func', 'als_func_vld', 'als_func_nolamb',
+             'optima_qtt', 'svd_incomplete', 'als_adapt_big'}
+    fresh_names = [n_ for n_ in sorted(RG.CALLS) if not (quick0 and n_ in slow0)]
+    with mp.get_context('fork').Pool(12, maxtasksperchild=1) as pool:
+        fresh = dict(pool.map(_fresh_fp, fresh_names, chunksize=1))
     ctx.rule = ('cases = calls executed inside TLC-emitted interleavings; distinct = (history, concrete functions bound to it); '
                 'non-trivial = the history repeats a key after a perturbation of the global generator or after another library call')
     ctx.assumptions = ['fingerprint = SHA-256 of the result bytes (shape, dtype, data) - bit-for-bit',
@@ -164,6 +184,43 @@ def run(ctx):
             if gstate() != g0:
                 ctx.violation('global-rng:' + {'S': s_name, 'G': s_name, 'D': d_name, 'W': w_name}[step['op']],
                               'the call moved the global NumPy generator', case=case)
+    # sibling interleaving: variants of the SAME exported function called in the order a, b, a - whatever the first call
+    # keeps (memo tables, default dictionaries, module state) must not change the answer of the third
+    groups = {}
+    for name in sorted(RG.CALLS):
+        groups.setdefault(RG.base_name(name), []).append(name)
+    for base, names in sorted(groups.items()):
+        if len(names) < 2:
+            continue
+        pairs = [(names[j], names[(j + 1) % len(names)]) for j in range(len(names))]
+        if quick:
+            pairs = pairs[:3] if base not in ('anova', 'ANOVA') else pairs
+        for a_name, b_name in pairs:
+            if (a_name in slow or b_name in slow) and quick and base not in ('anova', 'ANOVA'):
+                continue
+
+            def once(nm):
+                f, a, k = build(nm)
+                r_ = RG.quiet(f, *a, **k)
+                fill = {kk: {x: y for x, y in vv.items() if x != 't'} for kk, vv in k.items() if kk in RG.FILL_KEYS and isinstance(vv, dict)}
+                return fp((r_, fill))
+            try:
+                f1 = once(a_name)
+                once(b_name)
+                f3 = once(a_name)
+            except Exception as ex:
+                ctx.violation('history:' + base, '%s, %s, %s in a row: raised %s: %s' % (a_name, b_name, a_name, type(ex).__name__, ex), case={'calls': [a_name, b_name, a_name]})
+                continue
+            ctx.case(key=('siblings', a_name, b_name), nontrivial=True)
+            if f1 != f3:
+                ctx.violation('history:' + base, '%s gives another result after a call of %s' % (a_name, b_name), case={'calls': [a_name, b_name, a_name]})
+    # late calls against the fresh-process references: by now this process has made thousands of library calls
+    for name in fresh_names:
+        _, late = _fresh_fp(name)
+        ctx.case(key=('fresh-vs-late', name), nontrivial=True)
+        if late != fresh[name]:
+            ctx.violation('history:' + (RG.base_name(name) or name), '%s: the result after the other calls of this run differs from the result of the same call as the first call of a process' % name,
+                          case={'call': name})
     # every seeded function, every deterministic call: direct sweep (perturbed global state, other calls in between)
     for name in SEEDED + det + [None]:
         if name is None:
